@@ -1,0 +1,23 @@
+//go:build verif
+
+package dispatch
+
+// Contracts for the gcv verifier (/verif); compiled only with build tag `verif`.
+
+func forallIn(lo, hi int, f func(int) bool) bool {
+	for i := lo; i < hi; i++ {
+		if !f(i) {
+			return false
+		}
+	}
+	return true
+}
+
+// specReady: the forwarder has been initialised: at least one forwarding thread, none of them nil.
+func specReady() bool {
+	return len(FWDispatch) >= 1 && forallIn(0, len(FWDispatch), func(i int) bool { return FWDispatch[i] != nil })
+}
+
+//@ func GetFWThread
+//@   ensures (id < 0 || id >= len(FWDispatch)) ==> result == nil
+//@   ensures 0 <= id && id < len(FWDispatch) ==> result == FWDispatch[id]
